@@ -70,6 +70,10 @@ CHECKS = {
                 text="1..3 equations x 1..3 unknowns x key naming x ODE/stationary/non-stationary x scalar/dict weights x per-unknown initial/boundary/observation specifications x parameter batch; "
                      "equations asymmetric in t and x; the 1x1 system = plain loss is a lemma of the oracle checked on the records.",
                 note="polynomial one-output networks and equations returning shape (1,) residuals; exact under x64", ref="3.6 C13"),
+    "C20": dict(cat="model_checking", tech="TLC model checking of Purity.tla (all call orders) + replay of TLC-emitted call sequences on real objects, validated by Trace_Purity.tla",
+                text="Every order of evaluations (loss x batch variant x eager/jit/value-and-grad) and draws (fresh and re-used generator states, eager/jit) up to length 3-4 is enumerated; the sequences are executed "
+                     "on real losses (single and system) and generators; fingerprints of every argument before/after each call and of every result must satisfy ArgsUnchanged, repeatability and mode invariance.",
+                note="bitwise cross-mode comparison only on exact-arithmetic problems (x64); generator-only sequences run in the default 32-bit mode; fingerprints hash structure, array bytes and user dictionaries", ref="3.5 C20"),
 }
 NA = {}
 
